@@ -151,6 +151,21 @@ check('C08', 'specs/Merkle.tla + harness/c08_merkle.py',
       'for linkage only (PoW is C07); claim_proofs.verify_proof (legacy, uncalled) not covered.',
       'case-analytic TLA+ Merkle/SPV spec, TLC-enumerated proofs and mutations replayed into the real Ledger/Headers', 'DESIGN.md 5/C08')
 
+check('C16', 'specs/Url.tla + specs/ClaimApi.tla + harness/c16_claimurl.py',
+      'The URL grammar is transcribed into a TLA+ automaton. TLC enumerates every string over 13 character classes up to length 5 (6 thorough), '
+      'plus grammar-generated URLs at the 1/2/39/40/41-digit and leading-zero boundaries and their one-edit neighbourhoods, checks the parse/print '
+      'round-trip laws on the model and emits each case with its expected parts; every case is run through the real URL.parse / str(URL) in 2-3 '
+      'concrete spellings (ASCII, BMP range edges, astral). The metadata builder and the Signable envelope are a key-value TLA+ model, checked '
+      'exhaustively for all call sequences up to depth 4 (5) over small pools, with reachability witnesses; 500 (3000) TLC-generated API sequences '
+      'over full value pools are replayed on real Claim/Stream/Channel/Repost/Collection/Support/Purchase objects and after every call the typed '
+      'accessors, a plain protobuf parse of to_bytes() and from_bytes(to_bytes()) are all compared with the model state. The recorded legacy claims '
+      'must decode to their recorded field values.',
+      'Trusted: the google.protobuf wire encoding (message bytes are opaque cells in the model); all characters of one class behave alike (2-3 '
+      'representatives per class and position); bounded string length, names, call depth and pools; documented normalisations (tags, USD rounded up, '
+      '8/7-decimal truncation, zero = unset) are by design; Stream.update() with its file and mime inspection is outside the model; URL printing '
+      'judged modulo the code\'s canonical form.',
+      'TLA+ case enumeration (grammar automaton) + TLA+ API-history model; TLC-generated cases and call sequences replayed on the real code', 'DESIGN.md 5/C16')
+
 NOT_YET = 'check not built yet in this round (design in DESIGN.md section 5); will be claimed once its driver exists'
 ALL = [f'C{i:02d}' for i in range(1, 21)]
 
